@@ -3,13 +3,12 @@
    must satisfy). */
 #ifndef WV_C_HASH_H
 #define WV_C_HASH_H
-#define WV_ARR(a) __CPROVER_object_upto(a, sizeof(a))
-#define WV_HGHOSTS wv_hl_n, wv_hl_wbyte, wv_rounds, WV_ARR(wv_snap_h), WV_ARR(wv_snap_t)
 /* logging part of a compression call (what callers see) */
 #define WV_COMPRESS_LOG(input) \
   __CPROVER_ensures(wv_hl_n == __CPROVER_old(wv_hl_n) + 1) \
-  __CPROVER_ensures(__CPROVER_old(wv_hl_n) == wv_hl_watch ==> wv_hl_wbyte == (input)[wv_g]) \
-  __CPROVER_ensures(__CPROVER_old(wv_hl_n) != wv_hl_watch ==> wv_hl_wbyte == __CPROVER_old(wv_hl_wbyte))
+  __CPROVER_ensures(__CPROVER_old(wv_hl_n) == wv_hl_watch ==> (wv_hl_wbyte == (input)[wv_g] && wv_hl_wptr == (input))) \
+  __CPROVER_ensures(__CPROVER_old(wv_hl_n) != wv_hl_watch ==> (wv_hl_wbyte == __CPROVER_old(wv_hl_wbyte) && wv_hl_wptr == __CPROVER_old(wv_hl_wptr))) \
+  __CPROVER_ensures(wv_hl_fptr == __CPROVER_old(wv_hl_fptr) && wv_hl_fr == __CPROVER_old(wv_hl_fr) && wv_hl_ftotal == __CPROVER_old(wv_hl_ftotal))
 #define WV_FEED(j) (this->h[j] == __CPROVER_old(this->h[j]) + wv_snap_t[j])
 #define WV_TOTAL(p) ((p)->totalsize)
 
@@ -61,10 +60,11 @@ void cls##__getHash_2(cls *this, const u8_t *input, u32_t final_loadsize) \
 __CPROVER_requires(__CPROVER_is_fresh(this, sizeof(*this)) && final_loadsize < 64 && __CPROVER_is_fresh(input, final_loadsize) && wv_g < 64 && wv_hl_n < (1ull << 50)) \
 __CPROVER_assigns(WV_FINAL_ASSIGNS_##cls, WV_HGHOSTS) \
 __CPROVER_ensures(wv_hl_n == __CPROVER_old(wv_hl_n) + (final_loadsize < 56 ? 1 : 2)) \
+__CPROVER_ensures(wv_hl_fptr == input && wv_hl_fr == final_loadsize && wv_hl_ftotal == __CPROVER_old(this->_base.totalsize)) \
 __CPROVER_ensures(__CPROVER_old(wv_hl_n) == wv_hl_watch ==> wv_hl_wbyte == spec_pad_byte(input, final_loadsize, WV_BITLEN, 0, wv_g, BE)) \
 __CPROVER_ensures((final_loadsize >= 56 && __CPROVER_old(wv_hl_n) + 1 == wv_hl_watch) ==> \
                   wv_hl_wbyte == spec_pad_byte(input, final_loadsize, WV_BITLEN, 1, wv_g, BE)) \
-__CPROVER_ensures((wv_hl_watch < __CPROVER_old(wv_hl_n) || wv_hl_watch >= wv_hl_n) ==> wv_hl_wbyte == __CPROVER_old(wv_hl_wbyte));
+__CPROVER_ensures((wv_hl_watch < __CPROVER_old(wv_hl_n) || wv_hl_watch >= wv_hl_n) ==> (wv_hl_wbyte == __CPROVER_old(wv_hl_wbyte) && wv_hl_wptr == __CPROVER_old(wv_hl_wptr)));
 WV_FINAL_CONTRACT(sha256hash, 1)
 WV_FINAL_CONTRACT(sha1hash, 1)
 WV_FINAL_CONTRACT(md5hash, 0)
@@ -131,6 +131,8 @@ __CPROVER_requires(__CPROVER_is_fresh(this, WV_HM_SIZE) && WV_IS_HASHER(this) &&
 __CPROVER_assigns(__CPROVER_object_whole(this), WV_HGHOSTS)
 __CPROVER_ensures(WV_TAG_OF(this) == __CPROVER_old(WV_TAG_OF(this)))
 __CPROVER_ensures(wv_hl_n == __CPROVER_old(wv_hl_n) + (final_loadsize < 56 ? 1 : 2))
+__CPROVER_ensures(wv_hl_fptr == input && wv_hl_fr == final_loadsize && wv_hl_ftotal == __CPROVER_old(this->totalsize))
+__CPROVER_ensures((wv_hl_watch < __CPROVER_old(wv_hl_n) || wv_hl_watch >= wv_hl_n) ==> wv_hl_wptr == __CPROVER_old(wv_hl_wptr))
 __CPROVER_ensures(__CPROVER_old(wv_hl_n) == wv_hl_watch ==> wv_hl_wbyte == spec_pad_byte(input, final_loadsize, WV_BITLEN_A, 0, wv_g, WV_HBE(this)))
 __CPROVER_ensures((final_loadsize >= 56 && __CPROVER_old(wv_hl_n) + 1 == wv_hl_watch) ==>
                   wv_hl_wbyte == spec_pad_byte(input, final_loadsize, WV_BITLEN_A, 1, wv_g, WV_HBE(this)))
@@ -161,10 +163,9 @@ __CPROVER_assigns(__CPROVER_object_whole(this), WV_HGHOSTS)
 __CPROVER_assigns(WV_ASSIGNS_DIGEST(this, hashres))
 __CPROVER_ensures(WV_TAG_OF(this) == __CPROVER_old(WV_TAG_OF(this)))
 __CPROVER_ensures(wv_hl_n == __CPROVER_old(wv_hl_n) + WV_NFULL + ((length & 63) < 56 ? 1 : 2))
-__CPROVER_ensures((wv_hl_watch >= __CPROVER_old(wv_hl_n) && WV_REL < WV_NFULL) ==> wv_hl_wbyte == string[64 * WV_REL + wv_g])
-__CPROVER_ensures((wv_hl_watch >= __CPROVER_old(wv_hl_n) && WV_REL == WV_NFULL) ==>
-                  wv_hl_wbyte == spec_pad_byte(string + 64 * (size_t)WV_NFULL, length & 63, 8ull * length, 0, wv_g, WV_HBE(this)))
-__CPROVER_ensures((wv_hl_watch >= __CPROVER_old(wv_hl_n) && WV_REL == WV_NFULL + 1 && (length & 63) >= 56) ==>
-                  wv_hl_wbyte == spec_pad_byte(string + 64 * (size_t)WV_NFULL, length & 63, 8ull * length, 1, wv_g, WV_HBE(this)))
+/* block number k of the message is string[64k .. 64k+64) ... */
+__CPROVER_ensures((wv_hl_watch >= __CPROVER_old(wv_hl_n) && WV_REL < WV_NFULL) ==> wv_hl_wptr == string + 64 * (size_t)WV_REL)
+/* ... and the final routine gets the tail, its length, and a bit counter that equals 8 * (bytes hashed before) */
+__CPROVER_ensures(wv_hl_fptr == string + 64 * (size_t)WV_NFULL && wv_hl_fr == (length & 63) && wv_hl_ftotal == 512ull * WV_NFULL)
 __CPROVER_ensures(hashres[wv_gr] == WV_HSER(this, wv_gr));
 #endif
